@@ -11,6 +11,8 @@ import KikiVerif.Proofs.Valid
 import KikiVerif.Proofs.Run
 import KikiVerif.Generated.ParserCert
 import KikiVerif.Proofs.CstToAst
+import KikiVerif.Proofs.ParseErr
+import KikiVerif.LR.Early
 
 namespace KikiVerif.C09
 open KikiVerif KikiVerif.FrontParse KikiVerif.Generated KikiVerif.LR
@@ -147,8 +149,54 @@ theorem C09_flatten (toks : List Token) (fuel : Nat) (t : CTree) (h : parse toks
   rw [hy, List.map_map]
   rfl
 
+/-- **C09, parse errors are exact (span and text)**: when the front-end parser stops at a token of
+`tokenize src`, that token exists (`index < tokens.len()`), and the `KikiErr::Parse` built from it carries the
+token's own start offset, its own text — the slice of the source at that offset — and the matching end offset;
+the conversion cannot panic (no `Token::start` underflow, no bad slice).  At end of input the error is
+`Parse(len, "", len)`.  (That the token is the *first offending* one is `C03_front_end_first_offending`.) -/
+theorem C09_error_span (src : Str) (toks : List Token) (htok : Tokenize.tokenize src = .ok toks) (fuel : Nat)
+    (idx : Option Nat) (h : parse toks fuel = some (.unexpected idx)) :
+    (∀ k, idx = some k → k < toks.length) ∧
+    (∀ t, idx.bind (toks[·]?) = some t →
+      unexpectedToErr src (some t) =
+        .ok (.parse (Spec.tokStart t) (Spec.tokText t) (Spec.tokStart t + Text.blen (Spec.tokText t)))) ∧
+    unexpectedToErr src none = .ok (.parse (Text.blen src) [] (Text.blen src)) := by
+  refine ⟨?_, ?_, rfl⟩
+  · intro k hk
+    subst hk
+    unfold parse at h
+    cases hr : runCfg armG frontAuto fuel ⟨[frontAuto.start], [], toks.map mkTok⟩ with
+    | none => rw [hr] at h; cases h
+    | some rc =>
+      obtain ⟨r, cf⟩ := rc
+      rw [hr] at h
+      simp only [Option.map_some, Option.some.injEq] at h
+      obtain ⟨hsteps, _⟩ := steps_of_runCfg fuel _ _ _ hr
+      have hle := steps_rest_le hsteps
+      simp only [List.length_map] at hle
+      cases r with
+      | ok t => cases h
+      | panic => cases h
+      | cont c' => cases h
+      | err =>
+        simp only [ParseOut.unexpected.injEq] at h
+        split at h
+        · cases h
+        · rename_i hne
+          simp only [Option.some.injEq] at h
+          have : cf.rest ≠ [] := by intro e; rw [e] at hne; exact hne rfl
+          have : 0 < cf.rest.length := List.length_pos_iff.mpr this
+          omega
+  · intro t ht
+    cases idx with
+    | none => cases ht
+    | some k =>
+      simp only [Option.bind_some] at ht
+      exact unexpectedToErr_token src toks htok t (List.mem_of_getElem? ht)
+
 end KikiVerif.C09
 
+#print axioms KikiVerif.C09.C09_error_span
 #print axioms KikiVerif.C09.C09_kinds
 #print axioms KikiVerif.C09.C09_nonterminals
 #print axioms KikiVerif.C09.C09_rule_numbering
